@@ -10,6 +10,8 @@ PCall(cols, rows, single) == [cols |-> cols, rows |-> rows, single |-> single]
 T(s) == TextV(s)
 Vals1 == {Null, IntV(0), IntV(-12), MaxV(0), MinV(0), BoolV(TRUE), T(<<>>), T(<<120, 121>>), T(<<233>>),
           T(<<39>>), T(<<34, 59>>), T(<<10>>), T(<<9, 92>>), T(<<128512>>),
+          \* TEXT that reads like JSON (a document, a number, a literal) stays a string
+          T(<<91, 52, 50, 52, 50, 93>>), T(<<123, 125>>), T(<<123, 34, 97, 34, 58, 49, 125>>), T(<<91, 49, 46, 53, 48, 44, 34, 120, 34, 93>>), T(<<110, 117, 108, 108>>), T(<<116, 114, 117, 101>>), T(<<49, 50>>), T(<<34, 113, 34>>),
           \* control characters without a short JSON escape (ESC, NUL, BEL, US, DEL), CR, \b \f, line separator U+2028, BOM, backslash + quote, the last code point
           T(<<27, 91, 48, 109>>), T(<<0>>), T(<<7, 97>>), T(<<31>>), T(<<127>>), T(<<13>>), T(<<8, 12>>), T(<<8232>>), T(<<65279>>), T(<<92, 34>>), T(<<1114111>>), RealV(3, 2), RealV(1, 1), RealV(-1, 4), NaN, PInf, NZero,
           IvV(0), IvV(3723004), IvV(86400000), IvV(180930000), TsV(<<2021, 3, 4, 5, 6, 7, 89000>>), TsV(<<1999, 12, 31, 23, 59, 59, 999000>>),
